@@ -45,6 +45,25 @@ def run_case(c):
     out["n_sub"] = int(kw.get("smearing_subsamples"))
     out["helper"] = hexm(h)
     out["fmin"] = float(fr.fmin).hex()
+    # a second helper call on the SAME frame, somewhere else in the band: what it returns is what the helper returns for that signal on a
+    # fresh frame (nothing of the first signal in it), and the first call's array is left alone
+    if c["F"] >= 8:
+        c2 = dict(c, f_start=float(fr.fmin + (c["F"] - 1 - round((c["f_start"] - fr.fmin) / fr.df)) * fr.df), drift=-c["drift"] / 2, ptype=("box" if c["ptype"] != "box" else "gaussian"),
+                  width=max(c["width"] / 2, 0.25 * c["df"]))
+        h_keep = h.copy()
+        try:
+            with np.errstate(all="ignore"):
+                second = np.asarray(fr.add_constant_signal(f_start=c2["f_start"], drift_rate=c2["drift"], level=c2["level"], width=c2["width"], f_profile_type=c2["ptype"],
+                                                           doppler_smearing=c2["smear"]), dtype=float)
+            _, alone = helper(c2)
+            if second.shape != alone.shape or not np.array_equal(second, alone):
+                nbad = int(np.sum(second != alone)) if second.shape == alone.shape else -1
+                out["fails"].append(["second-call-differs", "a second add_constant_signal on the same frame (%s at channel %.2f, drift %.3g ch/step) returns other values than on a fresh frame: %d pixels differ"
+                                     % (c2["ptype"], (c2["f_start"] - fr.fmin) / fr.df, c2["drift"] * c["dt"] / c["df"], nbad)])
+            if not np.array_equal(h, h_keep):
+                out["fails"].append(["return-aliased", "the array returned by the first add_constant_signal was changed by the second call"])
+        except Exception as ex:
+            out["fails"].append(["second-call-raises", "a second add_constant_signal on the same frame raised %s: %s" % (type(ex).__name__, str(ex)[:120])])
     g = mk(c)
     unit = g.df / g.dt
     n_sub = max(1, int(np.ceil(abs(c["drift"]) / unit)))
